@@ -84,11 +84,16 @@ def deviations():
         sp["lanelets"][1]["lights"] = [12, 13]
         sp["lanelets"][3]["stop_line"] = {"start": [9.0, 3.0], "end": [9.0, 6.0], "marking": "SOLID", "sign_ref": [], "light_ref": []}
 
+    def one_sided_links(sp):
+        # relations stored on one side only: 1 lists 2 as successor but 2 does not list 1 as predecessor; 3 lists 2 as predecessor but 2 does not
+        # list 3 as successor; 4 lists 2 as right neighbour but 2 does not list 4 (whatever refers to a removed lanelet must still be cleaned)
+        sp["lanelets"][1]["pred"] = []; sp["lanelets"][1]["succ"] = []; sp["lanelets"][1].pop("adj_left", None)
+
     def two_incoming_lanelets(sp):
         sp["intersections"][0]["incomings"][0]["lanelets"] = [1, 2]
         sp["intersections"][0]["incomings"][0]["left"] = [4]
     return [("diamond", diamond), ("sixth-lanelet", sixth), ("adjacency-flip", adj_flip), ("sign-on-all", sign_all), ("second-intersection", second_intersection),
-            ("light-shared", light_shared), ("incoming-two-lanelets", two_incoming_lanelets), ("stopline-light-subset", stopline_light_subset)]
+            ("light-shared", light_shared), ("incoming-two-lanelets", two_incoming_lanelets), ("stopline-light-subset", stopline_light_subset), ("one-sided-links", one_sided_links)]
 
 
 def variant(names):
@@ -183,6 +188,10 @@ def m_apply(s, op):
         for x in op[1]:
             s = {"sc_rm_sign_list": m_remove_sign, "sc_rm_light_list": m_remove_light, "sc_rm_intersection_list": m_remove_intersection}[k](s, x)
         return s
+    if k == "sc_rm_absent_lanelet":
+        return s
+    if k == "sc_rm_absent_lanelet_list":
+        return m_apply(s, ["sc_rm_lanelet", op[1][1], op[2]])
     if k in ("sc_rm_lanelet", "sc_rm_lanelet_list"):
         ids = [op[1]] if k == "sc_rm_lanelet" else list(op[1])
         if op[2]:
@@ -247,6 +256,13 @@ def enabled_for(level):
                 ops.append(["sc_rm_light_list", tids[:2]])
             if iids:
                 ops.append(["sc_rm_intersection_list", iids[:2]])
+            # removing a lanelet that is no longer (or never was) in the scenario selects nothing for removal: everything stays as it is -
+            # also the signs and lights that only the absent lanelet refers to
+            for i in (1, 2, 3, 4, 5):
+                if i not in s["lanelets"]:
+                    ops.append(["sc_rm_absent_lanelet", i, True])
+                    if lids:
+                        ops.append(["sc_rm_absent_lanelet_list", [i, lids[0]], True])
         return ops
     return enabled
 
@@ -267,6 +283,9 @@ def real_apply(live, op):
         return sc.remove_lanelet(net.find_lanelet_by_id(op[1]), op[2])
     if k == "sc_rm_lanelet_list":
         return sc.remove_lanelet([net.find_lanelet_by_id(i) for i in op[1]], op[2])
+    if k in ("sc_rm_absent_lanelet", "sc_rm_absent_lanelet_list"):
+        absent = spec.mk_lanelet(next(l for l in base_network()["lanelets"] if l["id"] == (op[1] if k == "sc_rm_absent_lanelet" else op[1][0])))
+        return sc.remove_lanelet(absent if k == "sc_rm_absent_lanelet" else [absent, net.find_lanelet_by_id(op[1][1])], op[2])
     if k == "sc_rm_sign":
         return sc.remove_traffic_sign(net.find_traffic_sign_by_id(op[1]))
     if k == "sc_rm_sign_list":
@@ -290,6 +309,11 @@ def real_snapshot(live):
 def step(live, model, op):
     model2 = m_apply(model, op)
     try:
+        # a user inspects the derived lookups between the removals (whatever they cache is filled when the next removal happens)
+        net = live if not hasattr(live, "lanelet_network") else live.lanelet_network
+        for inter in net.intersections:
+            inter.map_incoming_lanelets
+        net.map_inc_lanelets_to_intersections
         real_apply(live, op)
         obs = ("ok", None)
     except Exception as e:
@@ -299,7 +323,7 @@ def step(live, model, op):
 
 def opname(op):
     n = op[0]
-    if n.startswith("sc_rm_lanelet"):
+    if n.startswith("sc_rm_lanelet") or n.startswith("sc_rm_absent"):
         n += "[refs]" if op[2] else "[norefs]"
     return n
 
@@ -312,6 +336,22 @@ def check(live, model, model2, op, obs, pre):
     got = real_snapshot(live)
     for kind, ident in dangling(got):
         out.append((f"C10|{opname(op)}|dangling:{kind}", f"{op}: {kind} still refers to removed id {ident}"))
+    # the public lookups derived from the incoming sets (read in every state, so whatever they cache is filled before the next removal)
+    net = live if not hasattr(live, "lanelet_network") else live.lanelet_network
+    try:
+        present = {l.lanelet_id for l in net.lanelets}
+        for inter in net.intersections:
+            exp_map = {lid: inc.incoming_id for inc in inter.incomings for lid in inc.incoming_lanelets}
+            got_map = {lid: inc.incoming_id for lid, inc in inter.map_incoming_lanelets.items()}
+            if got_map != exp_map or set(got_map) - present:
+                out.append((f"C10|{opname(op)}|lookup:Intersection.map_incoming_lanelets|disagrees-with-incomings",
+                            f"{op}: intersection {inter.intersection_id}: lookup {got_map}, incoming sets give {exp_map}, lanelets present {sorted(present)}"))
+        exp_net = {lid: inter.intersection_id for inter in net.intersections for inc in inter.incomings for lid in inc.incoming_lanelets}
+        got_net = {lid: inter.intersection_id for lid, inter in net.map_inc_lanelets_to_intersections.items()}
+        if got_net != exp_net:
+            out.append((f"C10|{opname(op)}|lookup:LaneletNetwork.map_inc_lanelets_to_intersections|disagrees-with-incomings", f"{op}: lookup {got_net}, incoming sets give {exp_net}"))
+    except Exception as e:
+        out.append((f"C10|{opname(op)}|lookup|raises:{type(e).__name__}", repr(e)))
     for path, kind, detail in snap.diff(model2, got, tol_point=0.0, angle_mod=False):
         p = snap.strip_index(path)
         what = "element-lost" if kind == "dropped" and p.count(".") == 2 else ("lost-relation" if kind in ("length-changed", "altered", "dropped") else kind)
